@@ -333,7 +333,7 @@ func (e *Enc) ptrOf(v ssa.Value) *Ptr {
 		switch u := x.X.Type().Underlying().(type) {
 		case *types.Slice:
 			s := e.val(x.X)
-			return &Ptr{kind: pElem, heap: e.w.heapArr(u.Elem()), ref: "(s_arr " + s + ")", idx: fmt.Sprintf("(idx %s %s)", s, e.val(x.Index)), typ: u.Elem()}
+			return &Ptr{kind: pElem, heap: e.w.heapArr(u.Elem()), ref: "(s_arr " + s + ")", idx: fmt.Sprintf("(addi (s_off %s) %s)", s, e.val(x.Index)), typ: u.Elem()}
 		case *types.Pointer:
 			at := u.Elem().Underlying().(*types.Array)
 			if isInterior(x.X) {
